@@ -5,6 +5,7 @@ import EsbuildModel.Impl.Compat
 import EsbuildModel.Impl.DataUrl
 import EsbuildModel.Impl.Quote
 import EsbuildModel.Impl.Exports
+import EsbuildModel.Impl.CssHex
 
 open EsbuildModel
 
@@ -17,6 +18,7 @@ def dispatch (kernel : String) (args : List String) : String :=
   | "dataurl" => DataUrl.driver args
   | "quote" => Quote.driver args
   | "exports" => Exports.driver args
+  | "csshex" => CssHex.driver args
   | _ => "bad-kernel"
 
 partial def loop (hin hout : IO.FS.Stream) : IO Unit := do
